@@ -67,6 +67,76 @@ func execRelSam(c *Case) (a, b result) {
 			return result{out: o, status: "ok"}
 		}
 		return run(argsNew), run(argsOld)
+	case "window-slice-topa":
+		// a pair wider than 65 536 columns: the windowed pair must be the cut of the whole pair at the columns of the
+		// window's first and last reference base (both computed from the real program's own unwindowed output)
+		_, recs := caseSam(c)
+		refTxt := renderFasta([]string{c.Get("rname")}, []string{c.Get("ref")}, layout{width: 0})
+		run := func(start, end int) (map[string][2]string, result) {
+			tmpCounter++
+			dir := filepath.Join(opts.tmp, fmt.Sprintf("c15w-%d-%d", os.Getpid(), tmpCounter))
+			defer os.RemoveAll(dir)
+			pairs := map[string][2]string{}
+			res := safeRun(60*time.Second, func() (string, error) {
+				err := sam.ToPairAlign(textReader(c.ID, txt), strings.NewReader(refTxt), dir, -1, start, end, false, false, atoi(c.Get("threads")))
+				if err != nil {
+					return "", err
+				}
+				for _, n := range blockNames(recs) {
+					b, err := os.ReadFile(filepath.Join(dir, n+".fasta"))
+					if err != nil {
+						return "", err
+					}
+					l := strings.Split(string(b), "\n")
+					if len(l) < 4 {
+						return "", fmt.Errorf("pair file of %s has %d lines", n, len(l))
+					}
+					pairs[n] = [2]string{l[1], l[3]}
+				}
+				return "", nil
+			})
+			return pairs, res
+		}
+		render := func(pairs map[string][2]string) string {
+			var sb strings.Builder
+			for _, n := range blockNames(recs) {
+				sb.WriteString(n + "\n" + pairs[n][0] + "\n" + pairs[n][1] + "\n")
+			}
+			return sb.String()
+		}
+		st, en := atoi(c.Get("start")), atoi(c.Get("end"))
+		win, ra := run(st, en)
+		whole, rb := run(-1, -1)
+		if ra.status != "ok" || rb.status != "ok" {
+			return ra, rb
+		}
+		cut := map[string][2]string{}
+		for n, pr := range whole {
+			if st == -1 {
+				st = 1
+			}
+			if en == -1 {
+				en = atoi(c.Get("reflen"))
+			}
+			from, to, seen := -1, -1, 0
+			for i := 0; i < len(pr[0]); i++ {
+				if pr[0][i] != '-' {
+					seen++
+					if seen == st {
+						from = i
+					}
+					if seen == en {
+						to = i + 1
+					}
+				}
+			}
+			if from < 0 || to < 0 {
+				return ra, result{status: "err:window outside the unwindowed pair"}
+			}
+			cut[n] = [2]string{pr[0][from:to], pr[1][from:to]}
+		}
+		ra.out, rb.out = render(win), render(cut)
+		return ra, rb
 	case "unwrap-toma":
 		run := func(w int) result {
 			return safeRun(30*time.Second, func() (string, error) {
@@ -99,6 +169,30 @@ func init() {
 		return c
 	}
 	execs["C15toma"] = func(r *RNG, c *Case) { execs[c.Prop](r, c) }
-	gens["C15topa"] = func(r *RNG, id string) *Case { return topaGen(r, id, true) }
-	execs["C15topa"] = execTopa
+	gens["C15topa"] = func(r *RNG, id string) *Case {
+		if r.Chance(1, 100) {
+			// scale: a genome of 66 000 - 72 000 bases, two reads over all of it with a few small insertions and deletions,
+			// a window that lies beyond (or straddles) column 65 536
+			c := NewCase("TOPA", id)
+			L := r.Range(66500, 72000)
+			ref := randSeq(r, L, symACGT, false)
+			sc := samCase{ref: ref, rname: "ref" + fmt.Sprint(r.Intn(9)), tags: map[string]bool{"pair-wider-than-65536-columns": true}}
+			for qi := 0; qi < 2; qi++ {
+				tmpl := mutateSeq(r, ref, symACGT, 1, 3000, false)
+				a := r.Range(100, 30000)
+				b := r.Range(100, 30000)
+				k, d := r.Range(1, 9), r.Range(1, 9)
+				rest := L - a - b - d
+				sc.recs = append(sc.recs, samRec{name: fmt.Sprintf("q%d", qi), flag: 0, pos: 1, cigar: fmt.Sprintf("%dM%dI%dM%dD%dM", a, k, b, d, rest),
+					seq: tmpl[:a] + randSeq(r, k, symACGT, false) + tmpl[a:a+b] + tmpl[a+b+d:]})
+			}
+			sc.fill(c)
+			st := r.PickInt([]int{r.Range(65000, 65536), r.Range(65537, L-200), 65536, 65537})
+			en := r.PickInt([]int{-1, st + r.Range(0, 150), L})
+			c.SetInt("start", st).SetInt("end", en).SetInt("threads", r.PickInt([]int{1, 2, 4}))
+			return relOf(c, "window-slice-topa", "eq")
+		}
+		return topaGen(r, id, true)
+	}
+	execs["C15topa"] = func(r *RNG, c *Case) { execs[c.Prop](r, c) }
 }
